@@ -98,7 +98,8 @@ class Contract:
                     cx.exc = e
                 for (label, cl) in case.post(cx):
                     x.assume(cl)
-                if not getattr(self, "manages_cview", False):
+                if not (getattr(self, "manages_cview", False) or case.label.startswith("buf-")):
+                    # (cases that have CView in `modifies` frame it by their own post clauses)
                     resync_container_views(x, pre)
                 x.event("contract", self.name, case.label)
                 if not eng.feasible(x):
